@@ -62,7 +62,11 @@ pub fn catch<R>(f: impl FnOnce() -> R) -> Result<R, PanicInfo> {
     install_hook();
     CATCHING.with(|c| *c.borrow_mut() += 1);
     LAST.with(|l| *l.borrow_mut() = None);
+    // `catch` is the wrapper around calls into the code under test: mark the thread (status page
+    // read by the supervising parent if this process dies)
+    crate::shard::call_enter();
     let r = panic::catch_unwind(AssertUnwindSafe(f));
+    crate::shard::call_leave();
     CATCHING.with(|c| *c.borrow_mut() -= 1);
     match r {
         Ok(v) => Ok(v),
